@@ -94,6 +94,7 @@ func checkC01(c *Ctx) {
 	c.checkSetupState()
 	c.checkNesting()
 	c.checkListSpine()
+	c.checkParserDepth()
 
 	// ---- C01-TA
 	for _, f := range c.zygoFuncs() {
